@@ -143,7 +143,9 @@ instance (ft fp v) : Decidable (F32OK ft fp v) := by unfold F32OK; exact inferIn
 @[simp] theorem isElement_el (p0 n attrs cs) : (el p0 n attrs cs).isElement = true := rfl
 @[simp] theorem attr_el_type (p0 n ty rest cs) : (el p0 n (tattr ty :: rest) cs).attr "type" = some ty := by
   simp [el, attr, tattr, at_]
-@[simp] theorem textOf_el (p0 n attrs s cs) : (el p0 n attrs (.text s :: cs)).textOf = some s := rfl
+/-- the writer's leaves have exactly one text child: `xml::text_of` (all text pieces) gives that text -/
+@[simp] theorem textOf_el (p0 n attrs s) : (el p0 n attrs [.text s]).textOf = some s := rfl
+@[simp] theorem textOf_el_nil (p0 n attrs) : (el p0 n attrs []).textOf = none := rfl
 @[simp] theorem children_el (p0 n attrs cs) : (el p0 n attrs cs).children = cs := rfl
 
 theorem find?_sep (p : XNode → Bool) (hp : p nl = false) (kids : List XNode) :
@@ -251,7 +253,7 @@ theorem optString_empty_without_text_node (p0 : Option String) (tag : String) (k
     (h : kids.find? (fun c => c.hasTagName tag) = some (el p0 tag [tattr "String"] [])) :
     optString (structT p0 "x" kids) tag = some (some "") := by
   simp [optString, typedChild_some (c := el p0 tag [tattr "String"] []) (ty := "String")
-    (show (structT p0 "x" kids).findChild tag = _ by simpa using h) (by simp), textOf, el]
+    (show (structT p0 "x" kids).findChild tag = _ by simpa using h) (by simp)]
 
 theorem parseI64_repr (v : Int) (h : InI64 v) : parseI64 v.repr = some v := parseI64_toString v h
 theorem parseU32_repr_int (n : Nat) (h : n ≤ 4294967295) : parseU32 (n : Int).repr = some n :=
@@ -431,14 +433,14 @@ theorem extractLimit_of_find {ft fp p0} {n : XNode} {t t' : String} {o : Option 
     have hv := hok v rfl
     have h' : n.findDescendant t = some (recordValueTree ft p0 t' v) := h
     cases v with
-    | integer i => simp [extractLimit, h', recordValueTree, el, attr, textOf, tattr, at_, parseI64_repr i hv]
-    | scaled i => simp [extractLimit, h', recordValueTree, el, attr, textOf, tattr, at_, parseI64_repr i hv]
+    | integer i => simp [extractLimit, h', recordValueTree, el, attr, textOf, XNode.children, textPieces, tattr, at_, parseI64_repr i hv]
+    | scaled i => simp [extractLimit, h', recordValueTree, el, attr, textOf, XNode.children, textPieces, tattr, at_, parseI64_repr i hv]
     | single b =>
       simp only [ValueOK, F32OK] at hv
-      simp [extractLimit, h', recordValueTree, el, attr, textOf, tattr, at_, hv]
+      simp [extractLimit, h', recordValueTree, el, attr, textOf, XNode.children, textPieces, tattr, at_, hv]
     | double b =>
       simp only [ValueOK, F64OK] at hv
-      simp [extractLimit, h', recordValueTree, el, attr, textOf, tattr, at_, hv]
+      simp [extractLimit, h', recordValueTree, el, attr, textOf, XNode.children, textPieces, tattr, at_, hv]
 
 def IntensityLimits.values (l : IntensityLimits) : List (Option Value) := [l.min, l.max]
 def ColorLimits.values (l : ColorLimits) : List (Option Value) :=
@@ -502,7 +504,7 @@ theorem IntensityLimits.roundtrip_needs_i64 (ft fp) :
     E57.IntensityLimits.fromNode fp (IntensityLimits.tree ft none ⟨some (.integer 9223372036854775808), none⟩)
       = none := by
   simp [E57.IntensityLimits.fromNode, IntensityLimits.tree, extractLimit, findDescendant, structT, el, lines, sep, optT,
-    descendants, descendantsList, recordValueTree, nl, hasTagName, attr, tattr, at_, textOf,
+    descendants, descendantsList, recordValueTree, nl, hasTagName, attr, tattr, at_, textOf, XNode.children, textPieces,
     show parseI64 (Int.repr 9223372036854775808) = none by decide +kernel]
 
 /-! ## 5. prototype -/
